@@ -99,37 +99,64 @@ def class_table():
     }
 
 
-def _track(b, owner):
-    """record what the user declares on `owner` (PEP, Function or BlockPartition) at the moment of the call"""
+CURRENT_DECL = [None]      # the user_decl list of the model being built / edited in this process
+
+
+def install_declaration_tracking():
+    """Record, at the moment of the call, every constraint / LMI declared through the public API of PEP, Function and
+    BlockPartition (class-level wrappers installed once per worker process; no repository source is touched).  Only the
+    declared object is referenced - never its owner - so that an owner the user does not keep (a composite built inline)
+    is still free to be garbage-collected."""
+    from PEPit.pep import PEP
+    from PEPit.function import Function
+    from PEPit.block_partition import BlockPartition
     from PEPit.psd_matrix import PSDMatrix
-    if hasattr(owner, "add_constraint"):
-        orig_c = owner.add_constraint
+    if getattr(Function, "_verif_tracked", False):
+        return
 
-        def add_constraint(constraint, *a, **k):
-            b.user_decl.append(("sc", constraint, None))
-            return orig_c(constraint, *a, **k)
-        owner.add_constraint = add_constraint
-    if hasattr(owner, "set_initial_condition"):
-        orig_i = owner.set_initial_condition
+    def wrap_c(cls):
+        orig = cls.add_constraint
 
-        def set_initial_condition(condition, *a, **k):
-            return orig_i(condition, *a, **k)        # calls add_constraint (already tracked)
-        owner.set_initial_condition = set_initial_condition
-    if hasattr(owner, "add_psd_matrix"):
-        orig_p = owner.add_psd_matrix
+        def add_constraint(self, constraint, *a, **k):
+            if CURRENT_DECL[0] is not None:
+                CURRENT_DECL[0].append(("sc", constraint, None))
+            return orig(self, constraint, *a, **k)
+        cls.add_constraint = add_constraint
 
-        def add_psd_matrix(matrix_of_expressions, *a, **k):
+    def wrap_p(cls):
+        orig = cls.add_psd_matrix
+
+        def add_psd_matrix(self, matrix_of_expressions, *a, **k):
             if isinstance(matrix_of_expressions, PSDMatrix):
                 written = [matrix_of_expressions[i, j] for i in range(matrix_of_expressions.shape[0])
                            for j in range(matrix_of_expressions.shape[1])]
             else:
                 written = [e for row in matrix_of_expressions for e in row]      # the entries as the user wrote them, now
-            before = list(owner.list_of_psd)
-            out = orig_p(matrix_of_expressions, *a, **k)
-            new = [m for m in owner.list_of_psd if not any(m is o for o in before)]
-            b.user_decl.append(("lmi", new[-1] if new else out, written))
+            before = list(self.list_of_psd)
+            out = orig(self, matrix_of_expressions, *a, **k)
+            new = [m for m in self.list_of_psd if not any(m is o for o in before)]
+            if CURRENT_DECL[0] is not None and (new or out is not None):
+                CURRENT_DECL[0].append(("lmi", new[-1] if new else out, written))
             return out
-        owner.add_psd_matrix = add_psd_matrix
+        cls.add_psd_matrix = add_psd_matrix
+    for c in (PEP, Function, BlockPartition):
+        wrap_c(c)
+    for c in (PEP, Function):
+        wrap_p(c)
+    Function._verif_tracked = True
+
+
+def all_functions():
+    """the registered functions (tolerates a registry that holds weak references)"""
+    import weakref
+    from PEPit.function import Function
+    out = []
+    for f in Function.list_of_functions:
+        if isinstance(f, weakref.ref):
+            f = f()
+        if f is not None:
+            out.append(f)
+    return out
 
 
 def build(prog):
@@ -146,15 +173,10 @@ def build(prog):
     b.user_decl = []     # what the user declared through the public API, recorded AT DECLARATION TIME:
                          # ("sc", constraint) | ("lmi", PSDMatrix object, [entry expressions as written by the user])
 
-    _pc, _fc = pep.add_constraint, None
-
-    def decl_sc(c):
-        b.user_decl.append(("sc", c, None))
-        return c
+    install_declaration_tracking()
+    CURRENT_DECL[0] = b.user_decl
     kind, cls, kw = class_table()[prog["cls"]]
     f = pep.declare_function(cls, **kw)
-    _track(b, pep)
-    _track(b, f)
     b.f = f
     h = None
     Fsum = f
@@ -162,9 +184,6 @@ def build(prog):
         h = pep.declare_function(ConvexFunction)
         Fsum = f + h
     b.h, b.F = h, Fsum
-    if h is not None:
-        _track(b, h)
-        _track(b, Fsum)
     steps = prog.get("steps", "g")
     if kind in ("fun", "nsf", "op"):
         xs = Fsum.stationary_point()
@@ -179,7 +198,13 @@ def build(prog):
                     x, _, _ = proximal_step(x, h if kind == "fun" else Fsum, GAMMA)
                 else:
                     x, _, _ = proximal_step(x, Fsum, GAMMA)
-            elif s == "i":
+            elif s == "I" and h is not None:
+                # the step is applied to a composite built INLINE and not kept by the user: its side constraint belongs
+                # to an object only the library references
+                x, _, _ = inexact_gradient_step(x, f + h, gamma=GAMMA, epsilon=.25, notion="relative")
+                import gc
+                gc.collect()
+            elif s in ("i", "I"):
                 x, _, _ = inexact_gradient_step(x, f, gamma=GAMMA, epsilon=.25, notion="relative")
                 if h is not None:
                     x, _, _ = proximal_step(x, h, GAMMA)
@@ -328,7 +353,6 @@ def build(prog):
         b1 = part.get_block(b.held["x0"], 1)
         b.held.update(blk0=b0, blk1=b1)
         b.part = part
-        _track(b, part)
         cpu = (b0 ** 2 <= 3)
         part.add_constraint(cpu)                          # the user's own constraint on the partition
         b.held["c_part_user"] = cpu
@@ -360,7 +384,7 @@ def declared(pep):
         pep_cons=list(pep.list_of_constraints), pep_lmis=list(pep.list_of_psd),
         funs=[dict(leaf=1 if f.get_is_leaf() else 0, ccons=list(f.list_of_class_constraints),
                    clmis=list(f.list_of_class_psd), cons=list(f.list_of_constraints), lmis=list(f.list_of_psd))
-              for f in Function.list_of_functions],
+              for f in all_functions()],
         parts=[list(p.list_of_constraints) for p in BlockPartition.list_of_partitions])
 
 
